@@ -8,7 +8,7 @@ func init() { checks["C08"] = checkC08 }
 
 func checkC08(c *Ctx) {
 	r := c.Rng
-	c.Ev.Coverage.Rule = "line sequences drawn from pools {valid documents, invalid documents, blank, blanks with spaces/tabs/CR, two documents on one line, a document split over two lines, scalar-only line}, 1..50 lines (up to 3000 in the boundary sweep so that root boundaries fall on index-buffer boundaries), LF and CRLF endings, with and without final newline; ParseND in 4 configurations vs the Coq specification nd_spec (split at LF, drop blank lines, every other line must satisfy spec_parse, documents in order, one per root) and vs the extracted model; non-trivial = compared in claim; distinct = by input bytes"
+	c.Ev.Coverage.Rule = "line sequences drawn from pools {valid documents, invalid documents, blank, blanks with spaces/tabs/CR, two documents on one line, a document split over two lines, scalar-only line}, 1..50 lines (up to 3000 in the boundary sweep so that root boundaries fall on index-buffer boundaries), LF and CRLF endings, with and without final newline; the line feed at every offset of a 64-byte block that holds nothing but white space (spaces/tabs/CR), between whole documents and between two halves of one; ParseND in 4 configurations vs the Coq specification nd_spec (split at LF, drop blank lines, every other line must satisfy spec_parse, documents in order, one per root) and vs the extracted model; non-trivial = compared in claim; distinct = by input bytes"
 	flags := ChkVerdict | ChkDump | ChkModel | ChkKernels | ChkCopyModes | ChkNoPanic
 	var batch []PCase
 	flush := func() {
@@ -99,6 +99,31 @@ func checkC08(c *Ctx) {
 		}
 	}
 	// newline inside a string is not a delimiter (and is a control character)
+	// a line feed inside a 64-byte block that holds nothing but white space (long blank runs
+	// between documents): the separator at every offset of such a block, with spaces, tabs
+	// and carriage returns as filler, and documents that together would still parse as one
+	for _, pair := range [][2]string{{`{"a":1}`, `{"b":2}`}, {`[1]`, `[2]`}, {`{"a":[1,2]}`, `{}`}, {`[1,2`, `,3]`}, {`{"a":`, `1}`}, {`[1,`, `2]`}} {
+		for _, fill := range []string{" ", "\t", "\r", " \t"} {
+			for off := 0; off < 64; off += 1 {
+				for _, lead := range []int{0, 1} {
+					var sb strings.Builder
+					sb.WriteString(strings.Repeat("{}\n", lead*3))
+					sb.WriteString(pair[0])
+					for sb.Len()%64 != 0 {
+						sb.WriteString(fill[:1])
+					}
+					sb.WriteString(strings.Repeat(fill, 64)[:64*((off%2)+0)])
+					blk := []byte(strings.Repeat(fill, 64)[:64])
+					blk[off] = '\n'
+					sb.Write(blk)
+					sb.WriteString(strings.Repeat(fill, 40)[:off%40])
+					sb.WriteString(pair[1])
+					add("lf-in-blank-block", []byte(sb.String()))
+				}
+			}
+		}
+	}
+
 	for _, s := range []string{"{\"a\":\"x\ny\"}", "[\"\\n\"]\n[\"b\"]", "[1]\n\n\n[2]", "[1]\r\n[2]\r\n", "[1]\r[2]", "[1]\n [2]", "[1] \n[2]", "[1]\n]", "[1]\n,", "\n", "\n\n", " \n ", "[1]", "[1]\n"} {
 		add("special", []byte(s))
 	}
